@@ -319,6 +319,52 @@ def normalize(e):
     return out
 
 
+NEG_OP = {'==': '!=', '!=': '==', '<': '>=', '>=': '<', '>': '<=', '<=': '>'}
+SWAP_OP = {'==': '==', '!=': '!=', '<': '>', '>': '<', '<=': '>=', '>=': '<='}
+
+
+def decision_alias_trees(e, lab):
+    """every spelling of one branch decision as (condition tree, 'T'/'F'): `a == b` taken == `a != b` not taken ==
+    `b == a` taken == `!(a == b)` not taken ... Rules that key on a decision look it up through these aliases so that a branch
+    written with the negated condition and swapped arms is the same decision."""
+    flip = {'T': 'F', 'F': 'T'}
+    e = normalize(e)
+    if lab not in flip:
+        return [(e, lab)]
+    out = [(e, lab)]
+    while e['k'] == 'un' and e['op'] == '!':
+        e = normalize(e['e'])
+        lab = flip[lab]
+        out.append((e, lab))
+    out.append(({'k': 'un', 'op': '!', 'e': e}, flip[lab]))
+    if e['k'] == 'bin' and e['op'] in NEG_OP:
+        for op, l2 in ((e['op'], lab), (NEG_OP[e['op']], flip[lab])):
+            out.append((dict(e, op=op), l2))
+            out.append((dict(e, op=SWAP_OP[op], l=e['r'], r=e['l']), l2))
+    return out
+
+
+def decision_aliases(e, lab):
+    return [(pp(t), l) for t, l in decision_alias_trees(e, lab)]
+
+
+def find_decisions(c, pred):
+    """branch nodes of CFG `c` that decide a condition for which pred(tree) holds in *some* spelling; returns
+    [(node, successor on which that condition is true, successor on which it is false)]."""
+    out = []
+    for b in c.events(('branch',)):
+        if b.e is None:
+            continue
+        for t, lab in decision_alias_trees(b.e, 'T'):
+            if pred(t):
+                tt = [s for s, l in b.succ if l == lab]
+                ff = [s for s, l in b.succ if l in ('T', 'F') and l != lab]
+                if tt and ff:
+                    out.append((b, tt[0], ff[0]))
+                break
+    return out
+
+
 def npp(e, decls=None):
     """normalised pretty form (for sibling comparison)."""
     if decls is not None:
